@@ -355,6 +355,26 @@ func evalC14Chain(c c14Chain, o *Obs) error {
 	if f.N() != uint32(len(entries)) || f.P() != p || !bytes.Equal(got, want) {
 		return fmt.Errorf("builder chain P=%d M=%d %d distinct entries: N=%d P=%d bytes %x, want %x", p, m, len(entries), f.N(), f.P(), clip(got), clip(want))
 	}
+	// the builder can be used again: same result, and one more entry gives the filter of the larger set
+	if f2, err := b.Build(); err != nil {
+		return fmt.Errorf("second Build() on the same builder failed: %v", err)
+	} else if g2, _ := f2.Bytes(); f2.N() != f.N() || !bytes.Equal(g2, got) {
+		return fmt.Errorf("second Build() on the same builder gives N=%d bytes %x, first gave N=%d bytes %x", f2.N(), clip(g2), f.N(), clip(got))
+	}
+	extra := []byte("one more entry")
+	if !seen[string(extra)] {
+		f3, err := b.AddEntry(extra).Build()
+		want3 := refGCSEncode(p, refGCSValues(key, m, append(append([][]byte{}, entries...), extra)))
+		if err != nil {
+			return fmt.Errorf("Build() after a further AddEntry failed: %v", err)
+		}
+		if g3, _ := f3.Bytes(); f3.N() != uint32(len(entries)+1) || !bytes.Equal(g3, want3) {
+			return fmt.Errorf("Build() after a further AddEntry: N=%d bytes %x, want N=%d bytes %x", f3.N(), clip(g3), len(entries)+1, clip(want3))
+		}
+		if g1, _ := f.Bytes(); !bytes.Equal(g1, got) {
+			return fmt.Errorf("the filter built first changed when the builder was used again")
+		}
+	}
 	return nil
 }
 
